@@ -237,6 +237,30 @@ def compare_join(acc, rname, w, u, sup, info):
     return None
 
 
+def string_form(u, s):
+    """The canonical *string* must say what the raw accessors say: split str(url) with the reference parser and compare each
+    component with the accessor by meaning (the accessors were compared with the supplied text above)."""
+    sc, auth, path, q, f, status = R.split(s)
+    if status == "unspecified" or (sc or "") != u.scheme or bool(auth) != bool(u.raw_authority):
+        return []   # the string re-parses with another structure: C03's business (see F11)
+    if any(c in u.raw_authority for c in "/?#"):
+        return []   # build(authority=) does not validate its text (C16, interpretation choice): no structure to compare
+    out = []
+    if auth:
+        user, pw, _host, _port = R.split_authority(auth)
+        for name, txt, raw in (("user", user, u.raw_user), ("password", pw, u.raw_password)):
+            if pct.sem(txt or "", True) != pct.sem(raw or "", True):
+                out.append("str() shows %s %r, raw_%s is %r" % (name, txt, name, raw))
+    rp = u.raw_path
+    if pct.sem(path or ("/" if auth and rp == "/" else ""), True, tagged="/") != pct.sem(rp, True, tagged="/"):
+        out.append("str() shows path %r, raw_path is %r" % (path, rp))
+    if pct.sem(q or "", True, True, "&=+;") != pct.sem(u.raw_query_string, True, True, "&=+;"):
+        out.append("str() shows query %r, raw_query_string is %r" % (q, u.raw_query_string))
+    if pct.sem(f or "", True) != pct.sem(u.raw_fragment, True):
+        out.append("str() shows fragment %r, raw_fragment is %r" % (f, u.raw_fragment))
+    return out
+
+
 BASE_PATHS = {"truediv": "/d/e", "truediv_noauth": "d/e", "joinpath1": "/d/", "joinpath2": "/d", "joinpath2b": ""}
 
 
@@ -279,12 +303,17 @@ def case_route(acc, rname, w):
     s = str(u)
     if w and w not in s:
         acc.nontrivial += 1
+    try:
+        msgs += string_form(u, s)
+    except (ValueError, TypeError):
+        acc.count("accessor_rejected")
     if msgs:
         acc.viol("route", (rname, w), observed={"str": s}, expected="same decoded bytes and delimiter status as supplied",
                  msg="%s(%r): %s" % (rname, w, "; ".join(msgs)))
     return s
 
 
+route_case = case_route
 CASES = {"route": case_route}
 
 
@@ -320,6 +349,9 @@ def plan(ctx):
             for sp, n in (("F1", 1), ("X2", 2)):
                 for part in range(n):
                     tasks.append((M, "task_routes", (rname, sp, part, n), b, "rs"))
+    from vlib import sweep as _sw
+    tasks += _sw.plan_ctx(M, ctx.tier, BACKENDS)
+    ctx.notes["context_routes"] = _sw.ctx_note()
     ctx.notes["bounds"] = {"routes": len(routes.NAMES), "str_subclass_routes": len(routes.NAMES_SUB), "route_word_spaces": [s for s, _ in route_spaces],
                            "alphabet_sizes": {"FULL": len(FULL), "CLSX": len(CLSX), "CORE": len(A.CORE)}}
     return tasks
